@@ -613,7 +613,15 @@ enum FlavorOutcome {
 struct GrabOutcome(Option<FlavorOutcome>, Option<Value>, u32);
 impl WithPurl for GrabOutcome {
     fn ok<T: Flavor>(&mut self, f: &'static str, p: &purl::GenericPurl<T>, acc: &mut Acc) {
-        self.0 = Some(FlavorOutcome::Built(observe(p), p.to_string()));
+        // Display panics when a built-in type parameter let an invalid type through (C06 reports the
+        // panic); the outcomes must still be comparable across type parameters
+        let text = guarded(|| p.to_string()).unwrap_or_else(|m| format!("<to_string panics: {m}>"));
+        let panicked = text.starts_with("<to_string panics");
+        self.0 = Some(FlavorOutcome::Built(observe(p), text));
+        if panicked {
+            acc.violate(Violation { prop: "C06", kind: "panic".into(), case: self.1.clone().unwrap_or(json!({"engine": "c13-flavors"})), detail: format!("{f}: to_string() of a built PURL panics") });
+            return;
+        }
         if let Some(case) = &self.1 {
             // the value monitors for every type parameter (Cow in both forms has no parser, so the
             // builder is the only way to obtain such values)
